@@ -280,7 +280,9 @@ func checkC12(R *Run) {
 	R.check(limit == 8192, "chat-truncate", "hotline.LimitChatMsg", "hotline", "= 8192", fmt.Sprintf("LimitChatMsg is %d, the protocol's chat limit is 8192", limit))
 	if fn := byNum[105]; fn != nil {
 		n := 0
-		for _, ci := range callsIn(fn) {
+		// the chat text fields, built in the handler or in a helper it calls (private / public send split off)
+		for _, dc := range P.deepCalls(fn, 1) {
+			ci := dc.call
 			c := ci.Common()
 			if calleeName(c) != "hotline.NewField" {
 				continue
@@ -289,7 +291,7 @@ func checkC12(R *Run) {
 				continue
 			}
 			n++
-			truncated := derivesAll(c.Args[1], func(x ssa.Value) bool {
+			truncated := P.derivesAll(c.Args[1], func(x ssa.Value) bool {
 				sl, ok := x.(*ssa.Slice)
 				if !ok || sl.High == nil {
 					return false
@@ -493,6 +495,11 @@ func init() { register("C12", checkC12) }
 
 // derivesAll: on every value path (phi edges, conversions, slicing) v passes through a value satisfying pred.
 func derivesAll(v ssa.Value, pred func(ssa.Value) bool) bool {
+	return (*Prog)(nil).derivesAll(v, pred)
+}
+
+// (with a program: a parameter is followed to the argument of every call site of its function)
+func (P *Prog) derivesAll(v ssa.Value, pred func(ssa.Value) bool) bool {
 	seen := map[ssa.Value]bool{}
 	var walk func(x ssa.Value) bool
 	walk = func(x ssa.Value) bool {
@@ -519,6 +526,40 @@ func derivesAll(v ssa.Value, pred func(ssa.Value) bool) bool {
 			return walk(y.X)
 		case *ssa.Slice:
 			return walk(y.X)
+		case *ssa.Call:
+			// the result of a repo helper: every value it may return
+			if P == nil {
+				return false
+			}
+			h, ok := y.Call.Value.(*ssa.Function)
+			if !ok || h.Blocks == nil || !P.isRepoPkg(pkgOf(h)) || h.Signature.Results().Len() != 1 {
+				return false
+			}
+			rets := returnsOf(h)
+			for _, r := range rets {
+				if !walk(r.Results[0]) {
+					return false
+				}
+			}
+			return len(rets) > 0
+		case *ssa.Parameter:
+			if P == nil || y.Parent() == nil {
+				return false
+			}
+			idx := -1
+			for i, q := range y.Parent().Params {
+				if q == y {
+					idx = i
+				}
+			}
+			sites := P.callers[y.Parent()]
+			for _, site := range sites {
+				c := site.Common()
+				if c.IsInvoke() || idx < 0 || idx >= len(c.Args) || !walk(c.Args[idx]) {
+					return false
+				}
+			}
+			return len(sites) > 0
 		}
 		return false
 	}
